@@ -460,6 +460,12 @@ func family() []shapeCase {
 		add("inplace-dir-without-o(usage error)", Tree{"src/a.js": f(a)}, "-r", "src/")
 		add("bundle", Tree{"a.js": f(a), "b.js": f(b)}, "-b", "-o", "out.js", "a.js", "b.js")
 		add("bundle-onto-input", Tree{"a.js": f(a), "b.js": f(b)}, "-b", "-o", "a.js", "a.js", "b.js")
+		add("bundle-onto-second-input", Tree{"a.js": f(a), "b.js": f(b), "c.js": f(a)}, "-b", "-o", "b.js", "a.js", "b.js", "c.js")
+		add("bundle-onto-last-input", Tree{"a.js": f(a), "b.js": f(b)}, "-b", "-o", "b.js", "a.js", "b.js")
+		add("inplace-source-is-symlink", Tree{"app.js": f(a), "latest.js": Node{Kind: "symlink", Target: "app.js"}}, "-o", "app.js", "latest.js")
+		add("inplace-destination-is-symlink", Tree{"app.js": f(a), "latest.js": Node{Kind: "symlink", Target: "app.js"}}, "-o", "latest.js", "app.js")
+		add("inplace-destination-is-hardlink", Tree{"app.js": f(a), "other.js": Node{Kind: "hardlink", Target: "app.js"}}, "-o", "other.js", "app.js")
+		add("inplace-other-spelling", Tree{"d/a.js": f(a)}, "-o", "d/../d/a.js", "d/a.js")
 		add("sync", Tree{"src/a.js": f(a), "src/readme.txt": f(strings.Repeat("t", sz))}, "-r", "-s", "-o", "out/", "src/")
 		add("sync-serial(-v)", Tree{"src/a.js": f(a), "src/readme.txt": f(strings.Repeat("t", sz))}, "-v", "-r", "-s", "-o", "out/", "src/")
 		add("fail-inplace", Tree{"bad.js": f(bad)}, "-o", "bad.js", "bad.js")
